@@ -6,6 +6,7 @@
 
 pub mod codec;
 pub mod gen;
+pub mod golden;
 pub mod monitors;
 pub mod refimpl;
 pub mod suite;
@@ -95,6 +96,9 @@ pub struct Ctx {
     pub call_log: Option<std::fs::File>,
     /// C17: one defect = one signature, keyed on the panic location only
     pub panic_sig_by_location: bool,
+    /// two-phase monitors (C19, C20): "emit" writes logs, "check" reads all of them
+    pub phase: String,
+    pub verif_dir: std::path::PathBuf,
 }
 
 thread_local! {
@@ -188,6 +192,8 @@ impl Ctx {
             exhaustive: Vec::new(),
             call_log: None,
             panic_sig_by_location: false,
+            phase: String::new(),
+            verif_dir: std::path::PathBuf::from(std::env::var("VERIF_DIR").unwrap_or_else(|_| "/verif".to_string())),
         }
     }
 
@@ -350,6 +356,21 @@ impl Ctx {
             format!("panic@{}", norm_loc(loc))
         } else {
             format!("panic/{}@{}", entry, norm_loc(loc))
+        }
+    }
+
+    /// scratch directory shared by the phases of a two-phase monitor
+    pub fn work_dir(&self, sub: &str) -> std::path::PathBuf {
+        let d = self.verif_dir.join("replay").join(".work").join(&self.prop).join(sub);
+        let _ = std::fs::create_dir_all(&d);
+        d
+    }
+
+    pub fn backend(&self) -> &'static str {
+        if cfg!(feature = "rust") {
+            "rust"
+        } else {
+            "blst"
         }
     }
 
